@@ -14,7 +14,8 @@ Inductive devent :=
 | DWrite (b : bytes)
 | DFlush
 | DEnd (e : rend)         (* end rendered into the body (error body / end-stream frame / trailer frame) *)
-| DTrailers (e : rend).   (* end rendered as HTTP trailers *)
+| DTrailers (e : rend)    (* end rendered as HTTP trailers *)
+| DDone.                  (* ghost: writeEnd has completed (it may have had nothing to write); not an action on the delegate *)
 
 (** static context of the response side *)
 Record wctx := mkWctx {
@@ -63,6 +64,7 @@ Definition write_end (cx : wctx) (e : rend) (was_in_headers : bool) (c : rwc) : 
                            (re_trailers e') in
                 emit (DTrailers e') (mkRwc h (c_flushed c) (c_end_written c) (c_meta c) (c_err c) (c_buf c) (c_resp_comp c) (c_out c))
             end in
+  let c1 := emit DDone c1 in
   mkRwc (c_hdr c1) (c_flushed c1) true (c_meta c1) (c_err c1) (c_buf c1) (c_resp_comp c1) (c_out c1).
 
 Definition has_err (m : rmeta) : bool :=
@@ -338,6 +340,7 @@ Definition ew_write (cx : wctx) (content_len : Z) (data : bytes) (c : rwc) (w : 
 
 (** envelopingWriter.Close *)
 Definition ew_close (cx : wctx) (c : rwc) (w : ew) : rwc * ew :=
+  let w := if c_end_written c then ew_set_err w else w in
   let '(c1, w1) :=
     match ew_cur w with
     | ECMeasure b =>
@@ -482,7 +485,7 @@ Definition tw_write (cx : wctx) (data : bytes) (c : rwc) (w : tw) : rwc * tw * w
 (** transformingWriter.Close *)
 Definition tw_close (cx : wctx) (c : rwc) (w : tw) : rwc * tw :=
   let c' :=
-    if tw_err w then c
+    if tw_err w || c_end_written c then c
     else if tw_expect w =? -1 then
       match tw_flush_message cx c w with
       | FOk c1 _ => c1
@@ -626,14 +629,16 @@ Definition rw_close (cx : wctx) (r : rw) : rw * wres :=
     match r_w r with
     | BNone => (r, WOk)
     | BNoBody => (r, WOk)
-    | BErr w => let '(c1, w1, _) := xw_write cx [] (r_core r) w in
+    | BErr w => let '(c1, w1, _) := if c_end_written (r_core r) then (r_core r, w, WOk) else xw_write cx [] (r_core r) w in
                 let '(c2, w2) := xw_close cx c1 w1 in (mkRw c2 true (r_content_len r) (BErr w2), WOk)
-    | BEnv w => let '(c1, w1, res) := ew_write cx (r_content_len r) [] (r_core r) w in
+    | BEnv w => let '(c1, w1, res) := if c_end_written (r_core r) then (r_core r, w, WOk)
+                                      else ew_write cx (r_content_len r) [] (r_core r) w in
                 match res with
                 | WPanic => (mkRw c1 true (r_content_len r) (BEnv w1), WPanic)
                 | _ => let '(c2, w2) := ew_close cx c1 w1 in (mkRw c2 true (r_content_len r) (BEnv w2), WOk)
                 end
-    | BTrans w => let '(c1, w1, res) := tw_write cx [] (r_core r) w in
+    | BTrans w => let '(c1, w1, res) := if c_end_written (r_core r) then (r_core r, w, WOk)
+                                        else tw_write cx [] (r_core r) w in
                   match res with
                   | WPanic => (mkRw c1 true (r_content_len r) (BTrans w1), WPanic)
                   | _ => let '(c2, w2) := tw_close cx c1 w1 in (mkRw c2 true (r_content_len r) (BTrans w2), WOk)
